@@ -185,3 +185,5 @@ def run(ctx, rep):
     # ---- C16.order ----------------------------------------------------------------------------------------------
     header_order(F, rep, "C16.order")
     iolib.count_rules(ctx, rep, "C16")
+    from rules import cachelib
+    cachelib.cache_rules(ctx, rep, "C16")
